@@ -121,7 +121,15 @@ func (p *Provider) Start(_ context.Context) error {
 	// sets are loaded would never be noticed. The corresponding events are handled as soon as
 	// the initial load is done; those for files already loaded with the same contents are ignored.
 	if p.w != nil {
-		if err := p.w.Add(p.src); err != nil {
+		// if a single file is configured, its directory is watched. A watch on the file itself
+		// is bound to the inode and is gone as soon as the file is replaced by a new one,
+		// which is how many tools update files
+		watched := p.src
+		if fInfo, err := os.Stat(p.src); err == nil && !fInfo.IsDir() {
+			watched = filepath.Dir(p.src)
+		}
+
+		if err := p.w.Add(watched); err != nil {
 			p.l.Error().Err(err).Msg("Failed to start rule definitions provider")
 
 			return err
@@ -192,6 +200,11 @@ func (p *Provider) ruleSetsChanged(evt fsnotify.Event) error {
 		Str("_event", evt.String()).
 		Str("_src", evt.Name).
 		Msg("Rule update event received")
+
+	if fInfo, err := os.Stat(p.src); evt.Name != p.src && (err != nil || !fInfo.IsDir()) {
+		// a single file is configured. Events for other files in its directory are of no interest
+		return nil
+	}
 
 	var err error
 
